@@ -390,6 +390,50 @@ func matchNames(pkg *types.Package) *NameMap {
 				restF = append(restF, ff)
 			}
 		}
+		// several fields moved together into a new nested struct: struct{ a A; b B } -> struct{ g G } with G struct{ x A; y B }
+		if len(restM) >= 2 {
+			for _, ff := range restF {
+				ut, ok := curTypes[ff.Type]
+				if !ok || !fresh[ff.Type] || ut.Fields == nil || len(ut.Fields) > len(restM) {
+					continue
+				}
+				usedM := map[int]bool{}
+				pairs := map[int]int{}
+				for ui, uf := range ut.Fields {
+					for mi, mf := range restM {
+						if !usedM[mi] && canonT(uf.Type) == mf.Type {
+							usedM[mi] = true
+							pairs[ui] = mi
+							break
+						}
+					}
+				}
+				if len(pairs) != len(ut.Fields) {
+					continue
+				}
+				for ui, mi := range pairs {
+					nm.FieldCanon[ut.Name+"."+ut.Fields[ui].Name] = bn + "." + restM[mi].Name
+					nm.FieldCur[bn+"."+restM[mi].Name] = ut.Name + "." + ut.Fields[ui].Name
+					nm.Renames = append(nm.Renames, "field "+bn+"."+restM[mi].Name+" -> "+ct.Name+"."+ff.Name+"."+ut.Fields[ui].Name+" (moved into a nested struct)")
+				}
+				delete(fresh, ff.Type)
+				var rest2 []BaselineField
+				for mi, mf := range restM {
+					if !usedM[mi] {
+						rest2 = append(rest2, mf)
+					}
+				}
+				restM = rest2
+				var restF2 []BaselineField
+				for _, f2 := range restF {
+					if f2.Name != ff.Name {
+						restF2 = append(restF2, f2)
+					}
+				}
+				restF = restF2
+				break
+			}
+		}
 		if len(restM) == 1 && len(restF) == 1 {
 			nm.FieldCanon[ct.Name+"."+restF[0].Name] = bn + "." + restM[0].Name
 			nm.FieldCur[bn+"."+restM[0].Name] = ct.Name + "." + restF[0].Name
@@ -512,6 +556,14 @@ func CanonFieldOf(t types.Type, idx int) string {
 // CanonFieldVar: canonical name of a field given its (canonical) owner type name.
 func CanonFieldVar(canonOwner string, f *types.Var) string {
 	_, cf := CanonField(CurType(canonOwner), f.Name())
+	if names != nil && cf == f.Name() {
+		// a field moved into a nested struct: its current owner is that struct
+		for k, v := range names.FieldCanon {
+			if strings.HasPrefix(v, canonOwner+".") && strings.HasSuffix(k, "."+f.Name()) && !strings.HasPrefix(k, CurType(canonOwner)+".") {
+				return v[len(canonOwner)+1:]
+			}
+		}
+	}
 	return cf
 }
 
